@@ -40,6 +40,7 @@ def scenarios(tier):
         out.append({'name': f'UGrid.make_clip_mask[buffer={buffer}]', 'fn': 'scn_mesh_clip', 'kwargs': {'buffer': buffer}})
     for fill, si in (('int_fill', 0), ('nan', 1), ('none', 0)):
         out.append({'name': f'buffer_faces[{fill}, start_index={si}]', 'fn': 'scn_buffer_faces', 'kwargs': {'fill': fill, 'si': si}})
+    out.append({'name': 'buffer_faces[mesh that stores a face-face table]', 'fn': 'scn_buffer_faces', 'kwargs': {'fill': 'int_fill', 'si': 1, 'face_face': True}})
     for conv in ('CFGrid1D', 'CFGrid2D', 'ShocSimple', 'ShocStandard'):
         for buffered in (False, True):
             out.append({'name': f'{conv}.make_clip_mask[buffer {">0" if buffered else "=0"}]', 'fn': 'scn_grid_clip',
@@ -318,14 +319,18 @@ def scn_mesh_mask(c, fill, si, edges):
                 s_implies(gv.is_fin(), s_and(mk_bool(z3.And(zint(kk) >= 0, zint(kk) < zint(selF.count))), pres_w, s_eq(elem_w, n))))
 
 
-def scn_buffer_faces(c, fill, si):
+def scn_buffer_faces(c, fill, si, face_face=False):
     """ugrid.buffer_faces: the given faces plus every face that shares a node with one of them, ascending, each once"""
     from contracts.ugrid import FILL_KEY
     from pyvc.lib.seq import Selection
     from pyvc.lib.numpy_ import INT64, NDArray
     it = new_interp(use=[FILL_KEY])
-    ds = inputs.ugrid_mesh(c, fill=fill, start_index=si, edges='none')
+    ds = inputs.ugrid_mesh(c, fill=fill, start_index=si, edges='none', tables=('face_face',) if face_face else ())
     info = ds.info
+    if face_face:
+        # a valid stored face-face table (arbitrary content): rings are defined by shared NODES, the table must not replace that
+        from props.C10 import Table
+        ds._vars['face_face'] = Table(c, 'face_face', info['nface'], info['maxn'], 'int_fill', si, False, 'nface', 'maxn', info['nface']).variable
     topo = it.instantiate(cls(it, 'emsarray.conventions.ugrid', 'Mesh2DTopology'), [ds], {})
     keepF = c.fresh_fn('keep_face', z3.IntSort(), z3.BoolSort())
     selF = Selection(info['nface'], lambda k: mk_bool(keepF(zint(k))), name='given_face')
